@@ -2321,11 +2321,11 @@ Proof.
   intros WL Hsub Hl m R. rewrite !Hl. apply (lin_down_of_W_lin st x WL). now apply (EditLin.reach_sub st s Hsub).
 Qed.
 
-Theorem C01_user_delete_edge st u v a st' :
-  WF st -> user_delete_edge_core st u v = Ok a st' ->
-  exists b st2, inv_action st' a = Ok b st2 /\ obs_eq st2 st.
+Theorem C01_user_delete_edge_at st u v a st' sx :
+  WF st -> user_delete_edge_core st u v = Ok a st' -> pw_eq st' sx ->
+  exists b st2, inv_action sx a = Ok b st2 /\ obs_eq st2 st.
 Proof.
-  intros [Cfg WD WFo WT WL WB WS WFr] H. unfold user_delete_edge_core in H.
+  intros [Cfg WD WFo WT WL WB WS WFr] H Px. unfold user_delete_edge_core in H.
   destruct (has_edge st u v) eqn:He; [|discriminate]. cbn [negb] in H.
   destruct (do_del_edge st u v) as [b1 s1|e1 s1] eqn:H1; [|discriminate]. cbn [bind] in H.
   destruct (EditBasic.do_del_edge_WS st u v b1 s1 WD WFo H1) as (WD1 & WF1 & E1 & N1 & A1 & (_ & Rft & _)).
@@ -2333,7 +2333,7 @@ Proof.
   pose proof (del_edge_W_book _ _ _ _ _ H1 WB) as WB1.
   assert (Htrk1 : forall m, trk s1 m = trk st m) by (intros m; unfold trk, zattr; now rewrite A1).
   assert (Hlin1 : forall m, lin s1 m = lin st m) by (intros m; unfold lin, zattr; now rewrite A1).
-  assert (Hsub1 : forall a c, edge s1 a c -> edge st a c) by (intros a c Hac; now apply E1 in Hac).
+  assert (Hsub1 : forall x y, edge s1 x y -> edge st x y) by (intros x y Hac; now apply E1 in Hac).
   assert (Hld1 : forall x, lin_down s1 x) by (intros x; now apply (lin_down_sub st s1 x WL Hsub1 Hlin1)).
   destruct (wd_edge_nodes st WD u v He) as [Nu Nv].
   assert (Nv1 : is_node s1 v) by (unfold is_node; now rewrite N1).
@@ -2341,11 +2341,11 @@ Proof.
   destruct (out_degree s1 u =? 0) eqn:Eod.
   - (* plain edge *)
     destruct (do_upd_track s1 v (next_trk s1) (Some (next_lin s1))) as [b2 s2|e2 s2] eqn:H2; [|discriminate].
-    cbn [bind] in H. injection H as <- <-. rewrite inv_action_group, inv_list_2.
+    cbn [bind] in H. injection H as <- E'; subst st'. rewrite inv_action_group, inv_list_2.
     assert (Hpre : upd_track_pre s1 v (next_trk s1)).
     { apply upd_track_pre_doc; [|exact WD1|exact WF1]. intros oldT m _ R Hm. exfalso.
       apply (next_trk_fresh s1 WB1 m); [|exact Hm]. now apply (EditWalk.reach_is_node s1 v m WD1 Nv1). }
-    destruct (upd_track_inverse s1 v _ _ b2 s2 Cfg1 WD1 WF1 (Hld1 v) Hpre H2) as (b2' & s1' & I2 & P2). rewrite I2.
+    destruct (upd_track_undo_at s1 v _ _ b2 s2 sx Cfg1 WD1 WF1 (Hld1 v) Hpre H2 Px) as (b2' & s1' & I2 & P2). rewrite I2.
     destruct (del_edge_undo_at st u v b1 s1 s1' WD Hio H1 P2) as (b1' & s0 & I1 & O1). rewrite I1. cbn [bind].
     eexists _, _. split; [reflexivity|now apply obs_eq_sym].
   - (* division edge *)
@@ -2354,7 +2354,7 @@ Proof.
     destruct (do_upd_track s1 sib t None) as [b2 s2|e2 s2] eqn:H2; [|discriminate]. cbn [bind] in H.
     destruct (zattr s2 v KTrack) as [tv|] eqn:Etv; [|discriminate].
     destruct (do_upd_track s2 v tv (Some (next_lin s2))) as [b3 s3|e3 s3] eqn:H3; [|discriminate].
-    cbn [bind] in H. injection H as <- <-. rewrite inv_action_group, inv_list_3.
+    cbn [bind] in H. injection H as <- E'; subst st'. rewrite inv_action_group, inv_list_3.
     (* the sibling *)
     assert (Hsib1 : edge s1 u sib) by (apply edge_successors; rewrite Es; now left).
     assert (Hsib : edge st u sib /\ sib <> v).
@@ -2372,12 +2372,17 @@ Proof.
     { apply (EditWalk.same_struct_W_forest s1 s2); [|exact WF1].
       pose proof (EditWalk.do_upd_track_struct s1 sib t None _ eq_refl) as S. now rewrite H2 in S. }
     assert (Cfg2 : cfg_ok s2) by (unfold cfg_ok; now rewrite Ef2).
-    assert (Hsub2 : forall a c, edge s2 a c -> edge st a c) by (intros a c Hac; apply Hsub1; unfold edge, has_edge, adj in *; now rewrite <- Es2).
+    assert (Hsub2 : forall x y, edge s2 x y -> edge st x y) by (intros x y Hac; apply Hsub1; unfold edge, has_edge, adj in *; now rewrite <- Es2).
     assert (Hlin2 : forall m, lin s2 m = lin st m) by (intros m; rewrite <- Hlin1; unfold lin, zattr; now rewrite KL2).
     assert (Hpre3 : upd_track_pre s2 v tv).
     { apply upd_track_pre_doc; [|exact WD2|exact WF2]. intros oldT m Ht _ _. unfold trk in Ht. congruence. }
-    destruct (upd_track_inverse s2 v _ _ b3 s3 Cfg2 WD2 WF2 (lin_down_sub st s2 v WL Hsub2 Hlin2) Hpre3 H3) as (b3' & s2' & I3 & P3). rewrite I3.
+    destruct (upd_track_undo_at s2 v _ _ b3 s3 sx Cfg2 WD2 WF2 (lin_down_sub st s2 v WL Hsub2 Hlin2) Hpre3 H3 Px) as (b3' & s2' & I3 & P3). rewrite I3.
     destruct (upd_track_undo_at s1 sib t None b2 s2 s2' Cfg1 WD1 WF1 (Hld1 sib) Hpre2 H2 P3) as (b2' & s1' & I2 & P2). rewrite I2.
     destruct (del_edge_undo_at st u v b1 s1 s1' WD Hio H1 P2) as (b1' & s0 & I1 & O1). rewrite I1. cbn [bind].
     eexists _, _. split; [reflexivity|now apply obs_eq_sym].
 Qed.
+
+Theorem C01_user_delete_edge st u v a st' :
+  WF st -> user_delete_edge_core st u v = Ok a st' ->
+  exists b st2, inv_action st' a = Ok b st2 /\ obs_eq st2 st.
+Proof. intros W H. exact (C01_user_delete_edge_at st u v a st' st' W H (pw_eq_refl st')). Qed.
